@@ -1,15 +1,27 @@
 Ast.vo Ast.glob Ast.v.beautified Ast.required_vo: Ast.v 
 Ast.vio: Ast.v 
 Ast.vos Ast.vok Ast.required_vos: Ast.v 
-Generated.vo Generated.glob Generated.v.beautified Generated.required_vo: Generated.v 
-Generated.vio: Generated.v 
-Generated.vos Generated.vok Generated.required_vos: Generated.v 
 Config.vo Config.glob Config.v.beautified Config.required_vo: Config.v Ast.vo Generated.vo
 Config.vio: Config.v Ast.vio Generated.vio
 Config.vos Config.vok Config.required_vos: Config.v Ast.vos Generated.vos
+Extract.vo Extract.glob Extract.v.beautified Extract.required_vo: Extract.v Ast.vo Generated.vo Config.vo Model.vo HookSites.vo Known.vo
+Extract.vio: Extract.v Ast.vio Generated.vio Config.vio Model.vio HookSites.vio Known.vio
+Extract.vos Extract.vok Extract.required_vos: Extract.v Ast.vos Generated.vos Config.vos Model.vos HookSites.vos Known.vos
+Generated.vo Generated.glob Generated.v.beautified Generated.required_vo: Generated.v 
+Generated.vio: Generated.v 
+Generated.vos Generated.vok Generated.required_vos: Generated.v 
+HookSites.vo HookSites.glob HookSites.v.beautified HookSites.required_vo: HookSites.v Ast.vo Generated.vo
+HookSites.vio: HookSites.v Ast.vio Generated.vio
+HookSites.vos HookSites.vok HookSites.required_vos: HookSites.v Ast.vos Generated.vos
+Known.vo Known.glob Known.v.beautified Known.required_vo: Known.v Ast.vo Generated.vo
+Known.vio: Known.v Ast.vio Generated.vio
+Known.vos Known.vok Known.required_vos: Known.v Ast.vos Generated.vos
 Model.vo Model.glob Model.v.beautified Model.required_vo: Model.v Ast.vo Generated.vo Config.vo
 Model.vio: Model.v Ast.vio Generated.vio Config.vio
 Model.vos Model.vok Model.required_vos: Model.v Ast.vos Generated.vos Config.vos
-Extract.vo Extract.glob Extract.v.beautified Extract.required_vo: Extract.v Ast.vo Generated.vo Config.vo Model.vo
-Extract.vio: Extract.v Ast.vio Generated.vio Config.vio Model.vio
-Extract.vos Extract.vok Extract.required_vos: Extract.v Ast.vos Generated.vos Config.vos Model.vos
+P_Telemetry.vo P_Telemetry.glob P_Telemetry.v.beautified P_Telemetry.required_vo: P_Telemetry.v Ast.vo Generated.vo Config.vo Model.vo
+P_Telemetry.vio: P_Telemetry.v Ast.vio Generated.vio Config.vio Model.vio
+P_Telemetry.vos P_Telemetry.vok P_Telemetry.required_vos: P_Telemetry.v Ast.vos Generated.vos Config.vos Model.vos
+Properties/C15.vo Properties/C15.glob Properties/C15.v.beautified Properties/C15.required_vo: Properties/C15.v Ast.vo Generated.vo Config.vo Model.vo P_Telemetry.vo
+Properties/C15.vio: Properties/C15.v Ast.vio Generated.vio Config.vio Model.vio P_Telemetry.vio
+Properties/C15.vos Properties/C15.vok Properties/C15.required_vos: Properties/C15.v Ast.vos Generated.vos Config.vos Model.vos P_Telemetry.vos
